@@ -165,7 +165,7 @@ func (g *cssSheetGen) declaration() bool {
 		g.units = append(g.units, CSSUnit{Grammar: "CustomProperty", Data: name, Values: []CSSTok{{"CustomPropertyValue", val}}})
 		return true
 	}
-	name := Pick(r, []string{"color", "margin", "Background", "FONT", "-webkit-x", "_height", "*zoom", "filter", "width", "é"})
+	name := Pick(r, []string{"color", "margin", "Background", "FONT", "-webkit-x", "_height", "*zoom", "filter", "width", "é", "Zoom", "Z-index", "resiZe", "A", "aZ", "*Zoom"})
 	g.w(name)
 	if r.Intn(3) == 0 {
 		g.optws()
@@ -357,6 +357,7 @@ func (g *cssSheetGen) prelude(kind string) []CSSTok {
 	type pt struct {
 		t                  CSSTok
 		punct, open, close bool
+		fn                 bool // a function token: not punctuation, whitespace behind it separates it from the first argument
 	}
 	var toks []pt
 	switch kind {
@@ -371,7 +372,16 @@ func (g *cssSheetGen) prelude(kind string) []CSSTok {
 				pt{t: CSSTok{"Colon", ":"}, punct: true}, pt{t: Pick(r, []CSSTok{{"Dimension", "100px"}, {"Ident", "landscape"}})}, pt{t: CSSTok{"RightParenthesis", ")"}, close: true})
 		}
 	case "supports":
-		toks = append(toks, pt{t: CSSTok{"LeftParenthesis", "("}, open: true}, pt{t: CSSTok{"Ident", "display"}}, pt{t: CSSTok{"Colon", ":"}, punct: true}, pt{t: CSSTok{"Ident", "grid"}}, pt{t: CSSTok{"RightParenthesis", ")"}, close: true})
+		switch r.Intn(3) {
+		case 0:
+			// @supports selector( a b ): the function token is a component value like any other
+			toks = append(toks, pt{t: CSSTok{"Function", Pick(r, []string{"selector(", "font-tech(", "Selector("})}, fn: true}, pt{t: CSSTok{"Ident", "a"}}, pt{t: CSSTok{"Ident", "b"}}, pt{t: CSSTok{"RightParenthesis", ")"}, close: true})
+		case 1:
+			toks = append(toks, pt{t: CSSTok{"LeftParenthesis", "("}, open: true}, pt{t: CSSTok{"Ident", "width"}}, pt{t: CSSTok{"Colon", ":"}, punct: true}, pt{t: CSSTok{"Function", "calc("}, fn: true}, pt{t: CSSTok{"Dimension", "1px"}},
+				pt{t: CSSTok{"RightParenthesis", ")"}, close: true}, pt{t: CSSTok{"RightParenthesis", ")"}, close: true})
+		default:
+			toks = append(toks, pt{t: CSSTok{"LeftParenthesis", "("}, open: true}, pt{t: CSSTok{"Ident", "display"}}, pt{t: CSSTok{"Colon", ":"}, punct: true}, pt{t: CSSTok{"Ident", "grid"}}, pt{t: CSSTok{"RightParenthesis", ")"}, close: true})
+		}
 	case "name":
 		toks = append(toks, pt{t: CSSTok{"Ident", Pick(r, []string{"k", "fade-in", "base"})}})
 	case "page":
@@ -406,6 +416,12 @@ func (g *cssSheetGen) prelude(kind string) []CSSTok {
 			case p.punct || t.punct:
 				g.optwsNoComment()
 			case p.open || t.close:
+				g.optwsNoComment() // behind '(' and in front of ')': next to punctuation, vanishes
+			case p.fn:
+				if r.Intn(2) == 0 {
+					g.sigws()
+					want = append(want, wsTok)
+				}
 			default:
 				g.sigws()
 				want = append(want, wsTok)
